@@ -353,7 +353,7 @@ PROPS['C11'].update({
                    'the rebuilt members have the stored extents/intents, canonical index, covers as neighbour tuples in shortlex/longlex order, and _init is called on the canonical arrangement '
                    '(LatInv is categorical, so every public query agrees with the recomputed lattice); fromjson/tojson pass every flag; __getstate__/__setstate__/__reduce__ are inverse pairs with the constructors',
     'bounded_part': 'the codecs (json, repr + ast.literal_eval, python-literal line structure), the pickle protocol itself incl. another process, recursion depth (known finding), '
-                    'the literal-file path; lemma L-SORTED-CANONICAL and the sum-of-atoms arithmetic contract are assumed',
+                    'the literal-file path; the sum-of-atoms arithmetic contract is assumed; lemma L-SORTED-CANONICAL is proved in Lean (lemmas/Seq.lean)',
     'technique': 'contract-based deductive verification of the encode/decode pair (todict/_tolist vs fromdict/_fromlist) and of the pickling hooks as inverse pairs; bounded stand-in for codecs and the pickle protocol',
     'level_text': 'Encode/decode functions proved relative to the trusted-stored-list precondition; external codecs and the pickle protocol are bounded; recursion depth is a known finding.',
     'level_note': 'Not decidable by contracts here: the C pickler walking the object graph, the id()-keyed class registry in a fresh process, recursion depth.',
@@ -396,10 +396,9 @@ PROPS['C13'].update({
                    'properties, remove_empty_*, in-place union/intersection (|=, &=) with conflict detection; the constructor establishes well-formedness and the no-residue invariant, '
                    'every operation preserves them, computes the model\'s view and return value, and a rejected call raises before any store; objects/properties/bools render the view '
                    '(one row per object, one cell per property); equality with a fresh definition built from the own triple follows from the invariant. All histories follow by induction on the history.',
-    'bounded_part': 'aliased calls (d |= d), comparison with a plain triple, replay; assumed list lemmas fold_dedup / erase_fold_keep / fold_len and the stdlib Set mixins __and__/__iand__ on Unique',
+    'bounded_part': 'aliased calls (d |= d), comparison with a plain triple, replay; the stdlib Set mixins __and__/__iand__ on Unique (assumed contracts); the list lemmas fold_dedup / erase_fold_keep / fold_len are proved in Lean (lemmas/Seq.lean)',
     'level_text': 'All editing operations, the constructor and the container class are under contract with every obligation discharged, for all states and arguments.',
-    'level_note': 'Assumes the list/set builtin contracts (algebraic SEQ theory validated against CPython), A-HEAP, three list lemmas about the spec functions (validated by enumeration; Lean proofs where available '
-                  'are in lemmas/Seq.lean), and other is not self for the binary operations.',
+    'level_note': 'Assumes the list/set builtin contracts (algebraic SEQ theory validated against CPython), A-HEAP, three list lemmas about the spec functions (proved in lemmas/Seq.lean, used through a hand transcription), and other is not self for the binary operations.',
 })
 PROPS['C14']['units'] += ['definitions.__init__', 'definitions.__eq__', 'definitions.objects', 'definitions.properties', 'definitions.bools', 'lemma.fresh_equal']
 
